@@ -188,7 +188,10 @@ pub fn run_prune(c: &PruneCase, _n: u64) -> Verdict {
             if !c.exclude.is_empty() {
                 sig.push("has-exclude".to_string());
             }
-            // literal text before the first wildcard of an include pattern (incl. the base dir of relative ones)
+            // literal text before the first wildcard of an include pattern (incl. the base dir of relative ones).
+            // The open finding (byte length used as a character count) can only strike when the directory
+            // is at least as long, in bytes, as that literal prefix minus its last character: shorter
+            // directories are compared correctly, so a pruned one is a different defect.
             let non_ascii_prefix = c.include.iter().any(|g| {
                 // a relative pattern is prefixed with the (literal) base directory
                 let mut lit = if g.starts_with('/') { String::new() } else { format!("{}/", c.base_dir) };
@@ -204,7 +207,8 @@ pub fn run_prune(c: &PruneCase, _n: u64) -> Verdict {
                         lit.push(ch);
                     }
                 }
-                !lit.is_ascii()
+                let cut = lit.char_indices().last().map(|(i, _)| i).unwrap_or(0);
+                !lit.is_ascii() && d.len() >= cut
             });
             if non_ascii_prefix {
                 sig.push("non-ascii-in-include-prefix".to_string());
@@ -262,8 +266,15 @@ fn glob_strategy(max_tokens: usize) -> impl Strategy<Value = String> {
     proptest::collection::vec((0u16..u16::MAX).prop_map(|i| TOKENS[pick(i, TOKENS.len())]), 1..=max_tokens).prop_map(|v| v.concat())
 }
 
+/// Components of the pruning cases: those of the enumeration plus upper-case non-ASCII names.
+const PRUNE_COMPONENTS: [&str; 10] = ["a", "b", "ab", "a.b", "-", "ż", "A", "Ż", "ŻÓŁW", "Ab"];
+
 fn rel_path_strategy() -> impl Strategy<Value = String> {
-    proptest::collection::vec((0u16..u16::MAX).prop_map(|i| COMPONENTS[pick(i, COMPONENTS.len())]), 1..=4).prop_map(|v| v.join("/"))
+    proptest::collection::vec((0u16..u16::MAX).prop_map(|i| PRUNE_COMPONENTS[pick(i, PRUNE_COMPONENTS.len())]), 1..=4).prop_map(|v| v.join("/"))
+}
+
+fn flip_case(s: &str) -> String {
+    s.chars().map(|c| if c.is_lowercase() { c.to_uppercase().next().unwrap_or(c) } else if c.is_uppercase() { c.to_lowercase().next().unwrap_or(c) } else { c }).collect()
 }
 
 const BASE_DIRS: [&str; 14] =
@@ -282,10 +293,13 @@ fn prune_strategy() -> impl Strategy<Value = PruneCase> {
         proptest::collection::vec((pat(true), any::<bool>()), 0..3),
         proptest::collection::vec((pat(true), any::<bool>()), 0..2),
         rel_path_strategy(),
-        prop::bool::weighted(0.2),
+        prop::bool::weighted(0.3),
+        prop::bool::weighted(0.25),
     )
-        .prop_map(|(base, rel, incs, excs, other, ci)| {
-            let path = format!("{}/{}", base, rel);
+        .prop_map(|(base, rel, incs, excs, other, ci, flip)| {
+            // the candidate path is, one time in four, the case-flipped twin of the path the patterns are
+            // derived from (selected only under --ignore-case, or through a wildcard)
+            let path = if flip { format!("{}/{}", base, flip_case(&rel)) } else { format!("{}/{}", base, rel) };
             let comps: Vec<&str> = rel.split('/').collect();
             let mk = |((subst, tail, _abs), relative): &((Vec<u8>, u8, bool), bool), from: &Vec<&str>| -> String {
                 let mut parts: Vec<String> = vec![];
